@@ -4,7 +4,6 @@ Model of range.go: `Range` and `sortedResources.Less`.
 import Jsonapi.Model.Filter
 namespace Jsonapi
 
-def idName : GoString := [105, 100]  -- "id"
 
 /-- A sorting rule: optional leading '-' and a field name. -/
 def splitRule (r : GoString) : Bool × GoString :=
